@@ -64,6 +64,8 @@ def run(chk, replay=None):
                 'traces = random samples of 1e3..1e5 values with heavy ties. non-trivial = distinct (multiset, query) '
                 'with a tie at the query or the query outside the sample range')
     maps = letter_maps(numpy)
+    DTYPES = {'npuint8': numpy.uint8, 'npuint64': numpy.uint64, 'npint32': numpy.int32, 'npint8': numpy.int8,
+              'npfloat32': numpy.float32, 'npuint16': numpy.uint16}
 
     def eval_case(cnt, n, ge, le, kind, container):
         vals = maps[kind]
@@ -77,6 +79,9 @@ def run(chk, replay=None):
             x = numpy.array(sample)
         elif container == 'npint' and kind in ('int', 'counts'):
             x = numpy.array(sample, dtype=numpy.int64)
+        elif container in DTYPES and kind in ('int', 'counts'):
+            # event counts arrive in whatever integer / float dtype the caller's arrays have
+            x = numpy.array(sample, dtype=DTYPES[container])
         else:
             x = numpy.array(sample, dtype=float)
         bad = []
@@ -115,7 +120,9 @@ def run(chk, replay=None):
     if len(cases) != 1715:
         raise MachineryError('Gen emitted %d multisets, expected 1715' % len(cases))
     kinds = ['int', 'float', 'neg', 'tiny'] if quick else list(maps)
-    containers = ['list', 'nparray', 'npint']
+    containers = ['list', 'nparray', 'npint', 'npuint8', 'npfloat32', 'npuint64', 'npint32', 'npint8', 'npuint16']
+    if 'counts' not in kinds:
+        kinds = kinds + ['counts']
     nb = 0
     for ci, case in enumerate(cases):
         cnt, n, ge, le = case['cnt'], case['n'], case['ge'], case['le']
